@@ -893,8 +893,8 @@ func (o *obs) issueCommands(c *imapclient.Client, uidFirst bool, wg *sync.WaitGr
 		}()
 	}
 
-	fetch1 := c.Fetch(set1, fopts) // T2
-	fetch2 := c.Fetch(set2, fopts) // T3
+	fetch1 := c.Fetch(set1, fopts)                                                                           // T2
+	fetch2 := c.Fetch(set2, fopts)                                                                           // T3
 	store := c.Store(set1, &imap.StoreFlags{Op: imap.StoreFlagsAdd, Flags: []imap.Flag{imap.FlagSeen}}, nil) // T4
 	spawn(func() { o.consumeFetchCmd("T2", fetch1, style1) })
 	spawn(func() { o.consumeFetchCmd("T3", fetch2, style2) })
@@ -917,30 +917,30 @@ func (o *obs) issueCommands(c *imapclient.Client, uidFirst bool, wg *sync.WaitGr
 	} else {
 		sortc, thread = c.Sort(sortOpts), c.Thread(thrOpts)
 	}
-	quota := c.GetQuota("r")              // T9
-	quotaRoot := c.GetQuotaRoot("INBOX")  // T10
+	quota := c.GetQuota("r")             // T9
+	quotaRoot := c.GetQuotaRoot("INBOX") // T10
 	maxSize := uint32(1024)
 	meta := c.GetMetadata("INBOX", []string{"/private/comment"}, &imapclient.GetMetadataOptions{MaxSize: &maxSize, Depth: imapclient.GetMetadataDepthInfinity}) // T11
 	lopts := &imap.ListOptions{ReturnSubscribed: true, ReturnChildren: true, ReturnSpecialUse: true}
 	if !uidFirst {
 		lopts.ReturnStatus = &imap.StatusOptions{NumMessages: true, UIDNext: true}
 	}
-	list := c.List("", "*", lopts) // T12
+	list := c.List("", "*", lopts)                                                                                                                                                                                     // T12
 	status := c.Status("INBOX", &imap.StatusOptions{NumMessages: true, UIDNext: true, UIDValidity: true, NumUnseen: true, NumDeleted: true, Size: true, AppendLimit: true, DeletedStorage: true, HighestModSeq: true}) // T13
-	sel := c.Select("INBOX", &imap.SelectOptions{CondStore: true}) // T14
-	copyc := c.Copy(set1, "dest")                                   // T15
-	move := c.Move(set2, "dest")                                    // T16
-	app := c.Append("INBOX", 3, nil)                                // T17
+	sel := c.Select("INBOX", &imap.SelectOptions{CondStore: true})                                                                                                                                                     // T14
+	copyc := c.Copy(set1, "dest")                                                                                                                                                                                      // T15
+	move := c.Move(set2, "dest")                                                                                                                                                                                       // T16
+	app := c.Append("INBOX", 3, nil)                                                                                                                                                                                   // T17
 	o.try("AppendCommand.Write", func() {
 		_, err := app.Write([]byte("abc"))
 		err2 := app.Close()
 		o.note("AppendCommand.Write/Close = %v %v", errStr(err), errStr(err2))
 	})
-	expunge := c.Expunge()  // T18
-	ns := c.Namespace()     // T19
-	capc := c.Capability()  // T20
+	expunge := c.Expunge()                                   // T18
+	ns := c.Namespace()                                      // T19
+	capc := c.Capability()                                   // T20
 	enable := c.Enable(imap.CapUTF8Accept, imap.CapMetadata) // T21
-	noop := c.Noop()        // T22
+	noop := c.Noop()                                         // T22
 
 	// consumers of the streaming commands run while the reader runs
 	var listData []*imap.ListData
